@@ -2,13 +2,14 @@
 
 use std::time::Duration;
 
-use actix_http::{error::DispatchError, HttpService, KeepAlive, Protocol};
+use actix_codec::Framed;
+use actix_http::{body::BodySize, error::DispatchError, h1, HttpService, KeepAlive, Protocol, Request, Response, StatusCode};
 use actix_service::{fn_service, Service as _, ServiceFactory as _};
 
 use super::{
     exec::Driven,
     io::{script_io, IoHandle, ScriptIo},
-    svc::{handle, wait_gate, W},
+    svc::{handle, wait_gate, SvcErr, W},
 };
 
 #[derive(Clone, Debug)]
@@ -26,16 +27,20 @@ pub struct ConnCfg {
     /// virtual time that passes between the creation of the service (which starts the cached
     /// clock) and the acceptance of the connection, so that the cached clock is stale by then
     pub accept_delay_ms: u64,
+    /// install an upgrade service: it answers `101` through the `Framed` it is handed and ends
+    pub upgrade: bool,
+    /// install an expect service that refuses (417) every request whose path contains "refuse"
+    pub expect_refuse: bool,
 }
 
 impl ConnCfg {
     /// every timer off: the configuration under which stalls are judged
     pub fn no_timers() -> Self {
-        ConnCfg { keep_alive_s: None, req_timeout_ms: 0, disc_timeout_ms: 0, half_closed: true, write_buf: None, shutdown_gate: None, accept_delay_ms: 0 }
+        ConnCfg { keep_alive_s: None, req_timeout_ms: 0, disc_timeout_ms: 0, half_closed: true, write_buf: None, shutdown_gate: None, accept_delay_ms: 0, upgrade: false, expect_refuse: false }
     }
     /// keep-alive on but so long it never fires within a case
     pub fn persistent() -> Self {
-        ConnCfg { keep_alive_s: Some(1_000_000), req_timeout_ms: 0, disc_timeout_ms: 0, half_closed: true, write_buf: None, shutdown_gate: None, accept_delay_ms: 0 }
+        ConnCfg { keep_alive_s: Some(1_000_000), req_timeout_ms: 0, disc_timeout_ms: 0, half_closed: true, write_buf: None, shutdown_gate: None, accept_delay_ms: 0, upgrade: false, expect_refuse: false }
     }
 }
 
@@ -66,22 +71,56 @@ pub async fn open_on(cfg: &ConnCfg, w: W, io: ScriptIo, proto: Protocol) -> Driv
         b = b.graceful_shutdown_signal(move || wait_gate(&w2, g));
     }
     let w3 = w.clone();
-    let factory = b.finish(fn_service(move |req| handle(w3.clone(), req)));
-    let svc = factory.new_service(()).await.expect("service init");
-    if cfg.accept_delay_ms > 0 {
-        // let the cached-clock task take its first (immediate) tick now, not after the delay
-        super::exec::breathe().await;
-        tokio::time::advance(Duration::from_millis(cfg.accept_delay_ms)).await;
-        super::exec::breathe().await;
+    let main = fn_service(move |req| handle(w3.clone(), req));
+    let delay = cfg.accept_delay_ms;
+    // the builder's type changes with the optional services, hence one arm per combination
+    macro_rules! start {
+        ($factory:expr) => {{
+            let svc = $factory.new_service(()).await.expect("service init");
+            if delay > 0 {
+                // let the cached-clock task take its first (immediate) tick now, not after the delay
+                super::exec::breathe().await;
+                tokio::time::advance(Duration::from_millis(delay)).await;
+                super::exec::breathe().await;
+            }
+            Driven::new(svc.call((io, proto, None)))
+        }};
     }
-    let fut = svc.call((io, proto, None));
-    Driven::new(fut)
+    if cfg.upgrade {
+        start!(b.upgrade(fn_service(upgrade_svc)).finish(main))
+    } else if cfg.expect_refuse {
+        start!(b.expect(fn_service(expect_svc)).finish(main))
+    } else {
+        start!(b.finish(main))
+    }
+}
+
+type UpItem = h1::Message<(Response<()>, BodySize)>;
+
+/// What an upgrade handler does first: answer the upgrade request through the framed transport it
+/// was given (whatever the dispatcher had not flushed yet travels in the same `Framed`).
+async fn upgrade_svc((req, framed): (Request, Framed<ScriptIo, h1::Codec>)) -> Result<(), SvcErr> {
+    let mut framed = Box::pin(framed);
+    let res = Response::build(StatusCode::SWITCHING_PROTOCOLS).insert_header(("x-upgraded", req.path().to_owned())).finish().drop_body();
+    framed.as_mut().write(h1::Message::Item((res, BodySize::None))).map_err(|_| SvcErr(500, 0, None))?;
+    std::future::poll_fn(|cx| framed.as_mut().flush::<UpItem>(cx)).await.map_err(|_| SvcErr(500, 0, None))?;
+    std::future::poll_fn(|cx| framed.as_mut().close::<UpItem>(cx)).await.map_err(|_| SvcErr(500, 0, None))?;
+    Ok(())
+}
+
+async fn expect_svc(req: Request) -> Result<Request, SvcErr> {
+    if req.path().contains("refuse") {
+        Err(SvcErr(417, 999_999, None))
+    } else {
+        Ok(req)
+    }
 }
 
 impl ConnCfg {
     pub fn to_json(&self) -> serde_json::Value {
         serde_json::json!({"keep_alive_s": self.keep_alive_s, "req_timeout_ms": self.req_timeout_ms, "disc_timeout_ms": self.disc_timeout_ms,
-            "half_closed": self.half_closed, "write_buf": self.write_buf, "shutdown_gate": self.shutdown_gate, "accept_delay_ms": self.accept_delay_ms})
+            "half_closed": self.half_closed, "write_buf": self.write_buf, "shutdown_gate": self.shutdown_gate, "accept_delay_ms": self.accept_delay_ms,
+            "upgrade": self.upgrade, "expect_refuse": self.expect_refuse})
     }
     pub fn from_json(v: &serde_json::Value) -> Self {
         ConnCfg {
@@ -92,6 +131,8 @@ impl ConnCfg {
             write_buf: v["write_buf"].as_u64().map(|x| x as usize),
             shutdown_gate: v["shutdown_gate"].as_u64().map(|x| x as usize),
             accept_delay_ms: v["accept_delay_ms"].as_u64().unwrap_or(0),
+            upgrade: v["upgrade"].as_bool().unwrap_or(false),
+            expect_refuse: v["expect_refuse"].as_bool().unwrap_or(false),
         }
     }
 }
